@@ -570,6 +570,10 @@ def run_history(ctx, seed):
                 if pname == 'HostConnection' and p.is_shutdown and not installed and c in p._trash:
                     viol.append(('old-connection-trashed-after-shutdown-left-open', where + ': _replace finished while shutdown() ran and put the replaced connection '
                                  'into _trash after shutdown() had looked at it'))
+                elif pname == 'HostConnectionPool' and p.is_shutdown and not installed and c in p._trash:
+                    viol.append(('legacy-pool-shutdown-misses-connection-being-trashed', where + ': shutdown() walked _connections and _trash without the pool lock while '
+                                 '_maybe_trash_connection (under the lock) had taken it out of _connections and not yet put it into _trash; its last stream was an '
+                                 'orphan released by a late answer, which never goes through return_connection, so nothing closes it afterwards'))
                 elif pname == 'HostConnection' and p.is_shutdown and not installed and c.sim_id in pw.trashed:
                     # it was seen in _trash and is not there any more: only shutdown()'s sweep removes an open connection from the trash
                     viol.append(('hostconnection-shutdown-never-closes-trash', where + ': it was in the pool\'s _trash and shutdown() emptied the trash without closing it'))
